@@ -575,6 +575,14 @@ def structure_scope(res, pid, rng, tier):
                 s_ = re.sub(r"[^A-Za-z]", "x", L.gen_secret(rng, "text"))
                 lines.insert(len(lines) - 1, "description %s-mgmt link %s\n" % (s_, f_.format(s_)))
                 keep_tokens.append(("description %s-mgmt link " % s_))
+        if cfg.pwd and not cfg.words and not cfg.asn:
+            # text in front of the secret that contains a backslash (Windows-style names): carried over verbatim
+            for nm in ("CORP\\netops", "CORP\\admin", "LAB\\1st-shift", "CORP\\guest", "A\\g<1>b", "x\\\\y"):
+                for f_ in ("username %s secret 0 {}", "username %s password 0 {}", "snmp-server user %s grp v3 auth md5 {}"):
+                    s_ = re.sub(r"[^A-Za-z]", "x", L.gen_secret(rng, "text")) + "Q1"
+                    pre_ = (f_ % nm).format("")
+                    lines.insert(len(lines) - 1, pre_ + s_ + "\n")
+                    keep_tokens.append(pre_)
         if cfg.ip:
             for m in ("255.255.252.000", "000.000.003.255", "0.0.0.255", "255.255.255.0", "255.000.000.000"):
                 plain.append(" ip address-mask %s secondary\n" % m)
@@ -759,6 +767,27 @@ def total_scope(res, pid, rng, tier):
             continue
         if o.getvalue().count("\n") != 1 and "\n" not in ln:
             fails.append({"kind": "one line in did not give one line out", "cfg": c.describe(), "line": ln, "output": o.getvalue()})
+    # every salt string is a salt: characters after the first one that are outside the `$9$` alphabet, white space, controls, long salts
+    from .jun_checks import ref_encrypt
+    for hs in ["s@lt", "Q 1", "7_x", "a*", "i\n", "-%", "n\x00", "K€", "e\\", "9$", "Z\t", ". ", "/" * 70, "_", "\x7f", "ß", "\u2028"]:
+        lines9 = ['secret "%s"' % ref_encrypt("plain" + str(rng.randint(0, 99)), rng.choice("QB7iaeKZ-./n")), "pre-shared-key ascii-text \"%s\"; ## SECRET-DATA"
+                  % ref_encrypt("k%d" % rng.randint(0, 9999), rng.choice("abcxyz019")), "password 7 %s" % L.gen_secret(rng, "type7"),
+                  "enable secret 5 %s" % L.gen_secret(rng, "md5"), "ip address 10.1.2.3 255.255.255.0", "hostname sea-1 65001"]
+        try:
+            ob = fa.FaCfg(salt=hs, pwd=True, ip=True, words=["sea"], asn=["65001"]).build()
+        except Exception as e:  # noqa
+            fails.append({"kind": "constructor raised on a valid option set", "salt": hs, "exc": repr(e)})
+            continue
+        for ln in lines9:
+            o = io.StringIO()
+            res.evaluations += 1
+            try:
+                ob.anonymize_io(io.StringIO(ln + "\n"), o)
+            except Exception as e:  # noqa
+                fails.append({"kind": "processing a line raised %s" % type(e).__name__, "salt": hs, "line": ln, "exc": repr(e)[:300]})
+                continue
+            if o.getvalue().count("\n") != 1:
+                fails.append({"kind": "one line in did not give one line out", "salt": hs, "line": ln, "output": o.getvalue()})
     # very long runs of enclosing characters
     for k in (1200, 3000):
         for ln in ['password ' + '"' * k + 'x' + '"' * k, "secret " + "[" * k + "y" + "]" * k, "key " + "'" * k]:
@@ -810,6 +839,11 @@ def compose_scope(res, pid, rng, tier):
                 base.undo = undo
                 if undo:
                     base.ip = False
+                if base.words is not None and r % 2:
+                    # words that also occur in what earlier stages write (place holders, hex digits)
+                    base.words = list(base.words) + ["net", "move", "conan"]
+                if base.asn is not None and base.words is not None and r % 4 == 3:
+                    base.words = list(base.words) + [base.asn[0]]          # the same token as sensitive word and as AS number
                 text = "".join(mixed_text(rng, base, 30))
                 # a scrubbed line that keeps other sensitive items in front, addresses with dotted tails, and words/AS numbers produced by earlier stages
                 text += "peer 20.1.2.3 2001:db8::1 as 65001 site sea-hq key-string 7 0822455D0A16\n"
@@ -822,6 +856,24 @@ def compose_scope(res, pid, rng, tier):
                 except Exception as e:  # noqa
                     fails.append({"kind": "multi-feature run raised", "cfg": base.describe(), "exc": repr(e)})
                     continue
+                # the option values given as other iterables (generator, tuple, set): same result
+                try:
+                    from netconan.anonymize_files import FileAnonymizer
+                    alt = FileAnonymizer(anon_pwd=base.pwd, anon_ip=base.ip, salt=base.salt,
+                                         sensitive_words=None if base.words is None else (w_ for w_ in list(base.words)),
+                                         undo_ip_anon=base.undo, as_numbers=None if base.asn is None else tuple(base.asn),
+                                         reserved_words=None if base.reserved is None else tuple(base.reserved),
+                                         preserve_prefixes=None if base.prefixes is None else tuple(base.prefixes),
+                                         preserve_networks=None if base.nets is None else tuple(base.nets),
+                                         preserve_suffix_v4=base.b4, preserve_suffix_v6=base.b6)
+                    multi_alt = _run(alt, text)
+                except Exception as e:  # noqa
+                    multi_alt = "<raised %r>" % (e,)
+                if multi_alt != multi:
+                    la, lb = multi.split("\n"), multi_alt.split("\n")
+                    k = next((i for i, (x, y) in enumerate(zip(la, lb)) if x != y), 0)
+                    fails.append({"kind": "option values given as generator / tuples instead of lists change the result", "cfg": base.describe(),
+                                  "input_line": text.split("\n")[k] if k < text.count("\n") else None, "lists": la[k][:200], "other_iterables": lb[min(k, len(lb) - 1)][:200]})
                 lines = io.StringIO(text).readlines()
                 reserved = set(default_reserved_words) | set(base.reserved or [])
                 try:
@@ -855,8 +907,10 @@ def compose_scope(res, pid, rng, tier):
                                   "cfg": base.describe(), "input_line": text.split("\n")[k], "together": la[k], "one_after_another": lb[k]})
     # command line: several options together = the options one after another (-p then -a / -u, ...)
     from .ip_checks import run_cli
-    text = "hostname r1\npassword foo   bar\nsnmp-server community s3cretXY ro\nip address 11.22.33.44 255.255.255.0\n neighbor 2001:db8::1 remote-as 65001\n"
-    for flags in (["-p", "-a"], ["-p", "-u"], ["-a", "-w", "sea"], ["-p", "-n", "65001"], ["-u", "-n", "65001", "-w", "hostname"]):
+    text = ("hostname r1\npassword foo   bar\nsnmp-server community s3cretXY ro\nip address 11.22.33.44 255.255.255.0\n neighbor 2001:db8::1 remote-as 65001\n"
+            "router bgp 65001\n neighbor AS65001-UPLINK acme peer-as 64999\n")
+    for flags in (["-p", "-a"], ["-p", "-u"], ["-a", "-w", "sea"], ["-p", "-n", "65001"], ["-u", "-n", "65001", "-w", "hostname"],
+                  ["-w", "acme,65001", "-n", "65001,64999"], ["-p", "-w", "net,move", "-n", "64999"]):
         st, o, _ = run_cli(["-s", "cs"] + flags, {"a.cfg": text})
         cur = text
         ok_ = st == "ok"
@@ -911,18 +965,60 @@ def determinism_scope(res, pid, rng, tier):
             fails.append({"kind": "same salt, options and input gave different output in one process (other anonymizers constructed in between)",
                           "cfg": cfg.describe(), "input_line": text.split("\n")[k], "first": la[k], "second": lb[k]})
     # no salt: the generated salt is reported and reproduces the output
+    from .jun_checks import ref_encrypt
     with fa.LogCap() as lc:
-        obj = FileAnonymizer(anon_pwd=False, anon_ip=True, sensitive_words=["sea"])
-    text = "ip address 11.22.33.44 255.255.255.0\nhostname sea1\n"
+        obj = FileAnonymizer(anon_pwd=True, anon_ip=True, sensitive_words=["sea"], as_numbers=["65001"])
+    text = ("ip address 11.22.33.44 255.255.255.0\nhostname sea1\n" + "".join(render(h) for h in gen_history(rng, 12))
+            + 'set system login user admin authentication encrypted-password "%s"\n secret "%s"\n' % (L.gen_secret(rng, "md5"), ref_encrypt("reproduceMe", "Q"))
+            + "router bgp 65001\n neighbor 2001:db8::1 remote-as 65001\n")
     o1 = _run(obj, text)
     m = [re.search(r'"([^"]*)"', msg) for lv, msg in lc.records if lv == "WARNING" and "salt" in msg.lower()]
     res.evaluations += 1
     if not m or not m[0]:
         fails.append({"kind": "no salt supplied: the generated salt is not reported at WARNING level", "records": lc.records})
     else:
-        o2 = _run(FileAnonymizer(anon_pwd=False, anon_ip=True, sensitive_words=["sea"], salt=m[0].group(1)), text)
+        o2 = _run(FileAnonymizer(anon_pwd=True, anon_ip=True, sensitive_words=["sea"], as_numbers=["65001"], salt=m[0].group(1)), text)
         if o1 != o2:
-            fails.append({"kind": "re-running with the reported salt does not reproduce the output", "reported_salt": m[0].group(1)})
+            la, lb = o1.split("\n"), o2.split("\n")
+            k = next((i for i, (x, y) in enumerate(zip(la, lb)) if x != y), 0)
+            fails.append({"kind": "re-running with the reported salt does not reproduce the output", "reported_salt": m[0].group(1),
+                          "input_line": text.split("\n")[k], "first_run": la[k], "rerun": lb[k]})
+    # the same option objects handed to several anonymizers (library use): later ones behave like a fresh process' would
+    shared_p, shared_n, shared_w, shared_r = ["10.0.0.0/8", "128.0.0.0/2"], ["44.1.0.0/16"], ["sea", "lax"], ["Seattle"]
+    ftext = "ip address 44.1.2.3\nip address 44.9.2.3\nip address 130.5.6.7\nip address 10.200.1.1\nhostname sea-lax Seattle\n"
+    ref = _run(FileAnonymizer(anon_pwd=False, anon_ip=True, salt="shr", preserve_prefixes=list(shared_p), sensitive_words=list(shared_w),
+                              reserved_words=list(shared_r)), ftext)
+    FileAnonymizer(anon_pwd=False, anon_ip=True, salt="shr", preserve_prefixes=shared_p, preserve_networks=shared_n, sensitive_words=shared_w,
+                   reserved_words=shared_r)
+    got = _run(FileAnonymizer(anon_pwd=False, anon_ip=True, salt="shr", preserve_prefixes=shared_p, sensitive_words=shared_w, reserved_words=shared_r), ftext)
+    res.evaluations += 2
+    if got != ref:
+        fails.append({"kind": "same salt, options and input gave different output after another anonymizer received the same option list objects",
+                      "input": ftext, "fresh": ref, "after": got, "lists_now": [shared_p, shared_n, shared_w, shared_r]})
+    # output path that already holds a longer file from an earlier run: the bytes are those of a run into a fresh location
+    import tempfile
+    import shutil
+    from netconan.anonymize_files import anonymize_files
+    d = tempfile.mkdtemp(prefix="ncverif_")
+    try:
+        os.makedirs(os.path.join(d, "in"))
+        open(os.path.join(d, "in", "a.cfg"), "w").write(text)
+        for sub in ("out1", "out2"):
+            os.makedirs(os.path.join(d, sub))
+        open(os.path.join(d, "out1", "a.cfg"), "w").write(text * 3 + "left over from an earlier, longer run\n")
+        open(os.path.join(d, "map1.txt"), "w").write("1.1.1.1\t2.2.2.2\n" * 400)
+        with fa.LogCap():
+            anonymize_files(os.path.join(d, "in"), os.path.join(d, "out1"), True, True, salt="twice", dumpfile=os.path.join(d, "map1.txt"))
+            anonymize_files(os.path.join(d, "in"), os.path.join(d, "out2"), True, True, salt="twice", dumpfile=os.path.join(d, "map2.txt"))
+        res.evaluations += 2
+        for a_, b_, what in ((os.path.join(d, "out1", "a.cfg"), os.path.join(d, "out2", "a.cfg"), "output file"),
+                             (os.path.join(d, "map1.txt"), os.path.join(d, "map2.txt"), "map file")):
+            x, y = open(a_, "rb").read(), open(b_, "rb").read()
+            if x != y:
+                fails.append({"kind": "an %s that existed before the run (longer) does not end up with the bytes of a run into a fresh location" % what,
+                              "bytes_existing_path": len(x), "bytes_fresh_path": len(y), "tail_existing_path": x[-80:].decode("utf-8", "replace")})
+    finally:
+        shutil.rmtree(d, ignore_errors=True)
     # an explicit empty salt is a salt
     e1 = _run(FileAnonymizer(anon_pwd=False, anon_ip=True, salt=""), text)
     e2 = _run(FileAnonymizer(anon_pwd=False, anon_ip=True, salt=""), text)
